@@ -132,7 +132,7 @@ CHECKS = {
  "C07": dict(
   engine="crash",
   category="fault_enumeration",
-  text="Crash-point enumeration on the real log writer: a fault point before every write to .n2_db persists a chosen prefix and kills the invocation. For 8 histories (log creation, append to a loaded log, renumbering manifest edits, new path records, superseded records, -j2) the last build is repeated for every write index and every byte count 0..=len; afterwards the log is loaded through the facade (a step has a loaded record iff its record was persisted completely, with the written dependency list), a recovery invocation must run exactly what the reference model calls dirty and succeed with clean-build contents, and a third invocation must be a no-op. Thorough adds a second crash at every write of the recovery invocation.",
+  text="Crash-point enumeration on the real log writer: a fault point before every write to .n2_db persists a chosen prefix and kills the invocation. For 8 histories (log creation, append to a loaded log, renumbering manifest edits, new path records, superseded records, -j2) the last build is repeated for every write index and every byte count 0..=len; afterwards the log is inspected through the facade (on a copy of its bytes: opening a log repairs it) (a step has a loaded record iff its record was persisted completely, with the written dependency list), a recovery invocation must run exactly what the reference model calls dirty and succeed with clean-build contents, and a third invocation must be a no-op; the same is demanded when the manifest is replaced by each other variant of the template between the crash and the next invocation (so that records - possibly the torn one - belong to steps that no longer exist), built, edited back and built again. Thorough adds a second crash at every write of the recovery invocation.",
   design_ref="DESIGN.md §3.3, §4 C07",
   note="Crash model: the tail of the write in progress is lost, earlier writes are intact (append-only file, no reordering across writes).",
   technique="exhaustive crash-point and torn-write enumeration with recovery checked against a reference model",
